@@ -431,7 +431,6 @@ func (c *Channel) TouchMessage(clientID int64, id MessageID, clientMsgTimeout ti
 		return err
 	}
 	verifPoint("chan.touch.afterMapPush")
-	c.addToInFlightPQ(msg)
 	return nil
 }
 
@@ -547,7 +546,6 @@ func (c *Channel) StartInFlightTimeout(msg *Message, clientID int64, timeout tim
 		return err
 	}
 	verifPoint("chan.inflight.afterMapPush")
-	c.addToInFlightPQ(msg)
 	return nil
 }
 
@@ -564,6 +562,11 @@ func (c *Channel) StartDeferredTimeout(msg *Message, timeout time.Duration) erro
 }
 
 // pushInFlightMessage atomically adds a message to the in-flight dictionary
+// pushInFlightMessage registers msg in the in-flight map AND on the deadline heap in one
+// critical section: with two, an answer for an earlier delivery of the same message by the
+// same consumer (REQ) processed in between left a heap entry for an object that was queued
+// again; its next delivery rewrote msg.pri in place inside the heap, which broke the heap
+// order and hid due timeouts of other messages behind it
 func (c *Channel) pushInFlightMessage(msg *Message) error {
 	c.inFlightMutex.Lock()
 	_, ok := c.inFlightMessages[msg.ID]
@@ -572,6 +575,7 @@ func (c *Channel) pushInFlightMessage(msg *Message) error {
 		return errors.New("ID already in flight")
 	}
 	c.inFlightMessages[msg.ID] = msg
+	c.inFlightPQ.Push(msg)
 	c.inFlightMutex.Unlock()
 	return nil
 }
@@ -591,12 +595,6 @@ func (c *Channel) popInFlightMessage(clientID int64, id MessageID) (*Message, er
 	delete(c.inFlightMessages, id)
 	c.inFlightMutex.Unlock()
 	return msg, nil
-}
-
-func (c *Channel) addToInFlightPQ(msg *Message) {
-	c.inFlightMutex.Lock()
-	c.inFlightPQ.Push(msg)
-	c.inFlightMutex.Unlock()
 }
 
 func (c *Channel) removeFromInFlightPQ(msg *Message) {
